@@ -184,6 +184,28 @@ def body_raises(which: int, pos: int, has_bak: bool, has_out: bool, ssc: bool) -
     return got is exc       # everything else propagates unchanged (the same object)
 
 
+def clash_refused(which: int, ssc: bool, edit: bool) -> bool:
+    """
+    pre: 0 <= which <= 2
+    post: _
+    """
+    # a backup name equal to the input name (with or without an output name) or to the output name is refused before anything
+    # is written: ValueError, no file created or changed, nothing opened for writing
+    name = "a.ssc" if ssc else "a.sm"
+    orig = SSC_TEXT if ssc else SM_TEXT
+    fs = ModelFS({name: "// a comment the serializer would not write\n" + orig})
+    before = dict(fs.files)
+    out = [None, "o.sm", "o.sm"][which]
+    bak = [name, name, "o.sm"][which]
+    try:
+        with mutate(name, output_filename=out, backup_filename=bak, filesystem=fs) as sf:
+            if edit:
+                sf["TITLE"] = "z"
+    except ValueError:
+        return fs.files == before and not [l for l in fs.log if l[0] == "open" and l[2] != "r"]
+    return False
+
+
 def save_fails(kind: int, ssc: bool, has_bak: bool, has_out: bool) -> bool:
     """
     pre: 0 <= kind <= 3
@@ -301,6 +323,8 @@ BYTE_PAYLOADS = [
     (b"t", b"// trailing \xe6\x97"),                   # 8 ends in an incomplete UTF-8 sequence
     (b"t", b"#SUBTITLE:\x93"),                         # 9 ends in a lone CP932/CP949 lead byte
     (b"a\x8d", b""),                                   # 10 0x8D: undefined in CP1252
+    (b"a\x0cb\x1cc\x0bd", b""),                         # 11 form feed, FS, VT inside a value (Unicode line boundaries that are not line breaks for a file)
+    ("a\u2028b\x85c".encode("utf-8"), b""),              # 12 U+2028 and U+0085 inside a value (UTF-8)
 ]
 
 
@@ -322,8 +346,11 @@ def _first_decoding(data, tried):
 
 def _reference(text, ssc):
     from msdparser import MSDParserError
+    # the reference parse goes through the string= constructor (the file-object route is what is under test here)
+    from simfile.sm import SMSimfile
+    from simfile.ssc import SSCSimfile
     try:
-        return simfile.loads(text), None
+        return (SSCSimfile if ssc else SMSimfile)(string=text), None
     except MSDParserError as e:
         return None, MSDParserError
 
